@@ -272,11 +272,13 @@ namespace
           bool a_lists_b = std::find(ra.neighbors.begin(), ra.neighbors.end(), b.first) != ra.neighbors.end();
           bool b_lists_a = std::find(rb.neighbors.begin(), rb.neighbors.end(), a.first) != rb.neighbors.end();
           if(a_lists_b != b_lists_a) sim::fail("NEIGHBOR_ASYMMETRIC", where + ": layer ranks " + std::to_string(a.first) + " and " + std::to_string(b.first) + " disagree on being neighbours");
-          if(share_vertex != a_lists_b)
-            sim::fail("NEIGHBOR_INCOMPLETE", where + ": layer ranks " + std::to_string(a.first) + " and " + std::to_string(b.first) + (share_vertex ? " share a vertex but are not neighbours" : " are neighbours but share no vertex"));
+          // complete, as the property says; a neighbour without a common vertex is not forbidden by it (its halo must then be empty,
+          // which the halo-set oracle below enforces)
+          if(share_vertex && !a_lists_b)
+            sim::fail("NEIGHBOR_INCOMPLETE", where + ": layer ranks " + std::to_string(a.first) + " and " + std::to_string(b.first) + " share a vertex but are not neighbours");
           auto ha = ra.halos.find(b.first); auto hb = rb.halos.find(a.first);
           if((ha != ra.halos.end()) != (hb != rb.halos.end())) sim::fail("HALO_ASYMMETRIC", where + ": only one of the layer ranks " + std::to_string(a.first) + "," + std::to_string(b.first) + " has a halo for the other");
-          if((ha != ra.halos.end()) != share_vertex) sim::fail("HALO_MISSING", where + ": halo between layer ranks " + std::to_string(a.first) + "," + std::to_string(b.first) + (share_vertex ? " is missing" : " exists without shared entities"));
+          if(share_vertex && ha == ra.halos.end()) sim::fail("HALO_MISSING", where + ": halo between layer ranks " + std::to_string(a.first) + "," + std::to_string(b.first) + " is missing");
           if(ha == ra.halos.end()) continue;
           ++CNT.halo_pairs;
           for(int d = 0; d <= dim; ++d)
